@@ -11,7 +11,7 @@ use fuse_backend_rs::api::filesystem::{
     ListxattrReply, ZeroCopyReader, ZeroCopyWriter,
 };
 use fuse_backend_rs::api::server::Server;
-use fuse_backend_rs::transport::{FsCacheReqHandler, FuseBuf, FuseDevWriter, Reader, VirtioFsWriter, Writer};
+use fuse_backend_rs::transport::{FsCacheReqHandler, FuseBuf, FuseChannel, FuseDevWriter, FuseSession, Reader, VirtioFsWriter, Writer};
 use std::ffi::CStr;
 use std::io::{self, BufRead, Read, Write};
 use std::sync::{Arc, Mutex};
@@ -677,6 +677,54 @@ fn run_virtio(c: &Case) -> String {
         if log.is_empty() { "-".to_string() } else { log }, hex(&wm[..used]))
 }
 
+// The real channel path: FuseSession::set_fuse_file + new_channel + FuseChannel::get_request over a
+// SOCK_SEQPACKET socketpair.  get_request hands the SAME buffer to the Reader and the Writer (the
+// "heavy hack" of linux_session.rs), so any handler that writes its reply before it has finished
+// reading the request shows up as a corrupted call log or reply.  One session per process.
+struct Chan { ch: FuseChannel, peer: i32 }
+fn chan() -> &'static mut Chan {
+    static mut CHAN: Option<Chan> = None;
+    unsafe {
+        if (*std::ptr::addr_of!(CHAN)).is_none() {
+            let (a, b) = sockpair();
+            let dir = std::env::temp_dir().join(format!("verif-chan-{}", std::process::id()));
+            let _ = std::fs::create_dir_all(&dir);
+            let mut se = FuseSession::new(&dir, "verif", "", false).unwrap();
+            se.set_fuse_file(std::os::unix::io::FromRawFd::from_raw_fd(a));
+            let ch = se.new_channel().unwrap();
+            // never run FuseSession::drop (it would try to unmount the directory)
+            std::mem::forget(se);
+            let _ = std::fs::remove_dir(&dir);
+            CHAN = Some(Chan { ch, peer: b });
+        }
+        (*std::ptr::addr_of_mut!(CHAN)).as_mut().unwrap()
+    }
+}
+
+fn run_chan(c: &Case) -> String {
+    let fs = new_fs(c);
+    let server = Server::new(fs.clone());
+    prior_init(&server, &fs, c.prior_minor);
+    let cn = chan();
+    let _ = drain(cn.peer);
+    let k = unsafe { libc::send(cn.peer, c.req.as_ptr() as *const _, c.req.len(), 0) };
+    if k < 0 || k as usize != c.req.len() {
+        return format!("id={} res=err:HarnessSend panic=0 canary=1 calls=- packets=- mem=", c.id);
+    }
+    let r = std::panic::catch_unwind(std::panic::AssertUnwindSafe(|| {
+        let (reader, writer) = cn.ch.get_request().unwrap().unwrap();
+        let mut nc = NoCache;
+        let vu: Option<&mut dyn FsCacheReqHandler> = if c.vu { Some(&mut nc) } else { None };
+        server.handle_message(reader, Writer::FuseDev(writer), vu, None)
+    }));
+    let (res, panicked) = match r { Ok(v) => (res_str(&v), false), Err(_) => ("panic".to_string(), true) };
+    let packets = drain(cn.peer);
+    let log = fs.log.lock().unwrap().join(";");
+    format!("id={} res={} panic={} canary=1 calls={} packets={} mem=",
+        c.id, res, panicked as u8, if log.is_empty() { "-".to_string() } else { log },
+        if packets.is_empty() { "-".to_string() } else { packets.iter().map(|p| if p.is_empty() { "e".to_string() } else { hex(p) }).collect::<Vec<_>>().join(",") })
+}
+
 // the three notification builders (fusedev only): notify=entry:<parent>:<namehex> | inode:<ino>:<off>:<len> | resend
 fn run_notify(c: &Case) -> String {
     let fs = new_fs(c);
@@ -724,7 +772,7 @@ fn main() {
         let line = line.unwrap();
         if line.trim().is_empty() { continue; }
         let c = parse_case(&line);
-        let r = if c.notify.is_some() { run_notify(&c) } else if c.transport == "virtio" { run_virtio(&c) } else { run_fusedev(&c, false) };
+        let r = if c.notify.is_some() { run_notify(&c) } else if c.transport == "virtio" { run_virtio(&c) } else if c.transport == "chan" { run_chan(&c) } else { run_fusedev(&c, false) };
         writeln!(out, "{}", r).unwrap();
     }
 }
